@@ -60,5 +60,104 @@ def mentionsTVO : Option Ty → Bool
   | some x => mentionsTV x
 end
 
+/-! ## Well-scopedness, well-formedness and consistency (hypotheses of the C07 theorems) -/
+
+mutual
+/-- every type variable that `substS` can reach in the type — in arguments, wildcard bounds and
+    (through the constructors of nested instantiations) in the declared supertypes of the
+    classes involved — is `==` to a member of `ps` resp. to a parameter of the class that
+    declares the supertype; no bare type constructor occurs as a type; every instantiation
+    has at least as many arguments as its constructor has parameters (Python asserts
+    equality); supertypes that are not parameterized (and are therefore never touched by
+    instantiation) mention no type variable at all -/
+def tvarsWithin (ps : List Ty) : Ty → Bool
+  | builtin _ _ _ _ ss => !mentionsTVL ss
+  | simple _ ss => !mentionsTVL ss
+  | tparam nm v b => memBeq (tparam nm v b) ps
+  | wild _ b => tvarsWithinO ps b
+  | tcon .. => false
+  | param _ con args _ =>
+      tvarsWithinL ps args && closedCon con && decide ((conParams con).length ≤ args.length)
+  | nothing => true
+  | ext _ => true
+def tvarsWithinL (ps : List Ty) : List Ty → Bool
+  | [] => true
+  | x :: xs => tvarsWithin ps x && tvarsWithinL ps xs
+def tvarsWithinO (ps : List Ty) : Option Ty → Bool
+  | none => true
+  | some x => tvarsWithin ps x
+/-- a class declaration whose supertypes only mention the class's own type parameters
+    (and so on up the hierarchy) -/
+def closedCon : Ty → Bool
+  | tcon _ _ cps css => supsWithin cps css
+  | _ => true
+def supsWithin (cps : List Ty) : List Ty → Bool
+  | [] => true
+  | param nm con args ss :: rest => tvarsWithin cps (param nm con args ss) && supsWithin cps rest
+  | t :: rest => !mentionsTV t && supsWithin cps rest
+end
+
+/-- the map binds every type variable that is `==` to a member of `ps` -/
+def TMap.covers (σ : TMap) (ps : List Ty) : Prop :=
+  ∀ x, memBeq x ps = true → (σ.get x).isSome = true
+
+/-- forget the supertypes list recorded in a (copied) constructor -/
+def stripCon : Ty → Ty
+  | tcon cls nm ps _ => tcon cls nm ps []
+  | t => t
+
+mutual
+/-- the type with the supertypes lists recorded inside the copied constructors of all its
+    instantiation nodes forgotten (`==` never reads them) -/
+def strip : Ty → Ty
+  | tparam nm v b => tparam nm v (stripO b)
+  | wild v b => wild v (stripO b)
+  | param nm con args ss => param nm (stripCon con) (stripL args) (stripL ss)
+  | t => t
+def stripL : List Ty → List Ty
+  | [] => []
+  | x :: xs => strip x :: stripL xs
+def stripO : Option Ty → Option Ty
+  | none => none
+  | some x => some (strip x)
+end
+
+mutual
+/-- every instantiation node that `==` looks at has a type constructor as its constructor
+    (otherwise `ParameterizedType.__eq__` is not even reflexive in the model) -/
+def wf : Ty → Bool
+  | simple _ ss => wfL ss
+  | tparam _ _ b => wfO b
+  | wild _ b => wfO b
+  | param _ con args ss =>
+      wfL ss && wfL args && (match con with | tcon _ _ ps _ => wfL ps | _ => false)
+  | _ => true
+def wfL : List Ty → Bool
+  | [] => true
+  | x :: xs => wf x && wfL xs
+def wfO : Option Ty → Bool
+  | none => true
+  | some x => wf x
+end
+
+mutual
+/-- the supertypes stored in every instantiation node (reachable through arguments and bounds)
+    are what instantiating its constructor at its arguments computes, up to the supertypes
+    lists recorded in copied constructors; the node's name is its constructor's name -/
+def Consistent : Ty → Prop
+  | tparam _ _ b => ConsistentO b
+  | wild _ b => ConsistentO b
+  | param nm con args ss =>
+      nm = conName con ∧ ConsistentL args ∧
+      stripL (performSubstL (conSups con) (TMap.mk (conParams con) args)) = stripL ss
+  | _ => True
+def ConsistentL : List Ty → Prop
+  | [] => True
+  | x :: xs => Consistent x ∧ ConsistentL xs
+def ConsistentO : Option Ty → Prop
+  | none => True
+  | some x => Consistent x
+end
+
 end Ty
 end Heph
